@@ -103,7 +103,10 @@ RANK_NAMES = ["M", "K", "N", "P", "Q"]
 # range, shape, maximum coordinate or default) is stale by the time the operation under test runs.
 # late_default: a tensor's fibers are built without being told the leaf default (an unowned fiber then
 # guesses 0); only the tensor is (Tensor.setDefault) - once owned, the rank's attributes are what counts.
-MODE = {"vkind": "int", "touch": False, "late_default": False}
+# reassign: after the tensor is built, every other interior child (at any level) is replaced, through item
+# assignment, by a freshly built unowned fiber with the same literal: the old sub-tree must leave the
+# rank lists and the new one enter them (Fiber._disownPayload / _registerPayload), the tree is the same.
+MODE = {"vkind": "int", "touch": False, "late_default": False, "reassign": False}
 
 
 class SubInt(int):
@@ -113,12 +116,13 @@ class SubInt(int):
 def set_mode(mod, case):
     import hashlib, json
     if not getattr(mod, "REPR_MODES", True):
-        MODE.update(vkind="int", touch=False, late_default=False)
+        MODE.update(vkind="int", touch=False, late_default=False, reassign=False)
         return
     h = int(hashlib.sha1(json.dumps(case, sort_keys=True).encode()).hexdigest()[:8], 16)
     MODE["vkind"] = ["int", "int", "float", "sub"][h % 4]
     MODE["touch"] = (h // 4) % 2 == 1
     MODE["late_default"] = (h // 8) % 2 == 1
+    MODE["reassign"] = (h // 16) % 4 == 3 and getattr(mod, "REASSIGN_MODE", True)
 
 
 def dress(v):
@@ -180,6 +184,16 @@ def build_fiber(t, d=0):
     return f
 
 
+def _reassign(f, t, d):
+    for i, (c, sub) in enumerate(t):
+        if isinstance(sub, int):
+            return
+        if i % 2 == 0:
+            f[i] = build_fiber(sub, d)
+        else:
+            _reassign(f.payloads[i], sub, d)
+
+
 def build_tensor(t, depth, shapes=None, d=0, rank_ids=None, name=None):
     from fibertree import Tensor
     rank_ids = rank_ids or RANK_NAMES[:depth]
@@ -201,6 +215,8 @@ def build_tensor(t, depth, shapes=None, d=0, rank_ids=None, name=None):
         T.setDefault(dress(d))
     if name is not None:
         T.setName(name)
+    if MODE["reassign"]:
+        _reassign(T.getRoot(), t, 0 if MODE["late_default"] else d)
     if MODE["touch"]:
         touch(T.getRoot())
         for q in (lambda: T.getShape(), lambda: T.getDefault(), lambda: T.countValues(), lambda: T.isEmpty() if hasattr(T, "isEmpty") else None):
